@@ -1,5 +1,87 @@
+import OpusModel.EncSkel
 import Driver.Util
-/- Suite stub — replaced by the owner of this suite. -/
+/- Suite `encskel`: replay of opus_encode_native from pre-state + recorded oracles (C02, C05),
+   plus the pure helpers (`silkrate`, `gentoc`, `fss`) and the multistream budget split. -/
 namespace Driver.SuiteEncSkel
-def handle (_ : List String) : String := "bad-op"
+open Opus Opus.EncSkel Opus.EncDecide Driver
+
+def lookup (kv : List (String × String)) (k : String) : Option String :=
+  match kv with
+  | [] => none
+  | (k', v) :: rest => if k' = k then some v else lookup rest k
+
+def parseKV (toks : List String) : List (String × String) :=
+  toks.filterMap fun t =>
+    match t.splitOn "=" with
+    | [k, v] => some (k, v)
+    | _ => none
+
+def getInt (kv : List (String × String)) (k : String) : Option Int := (lookup kv k).bind parseInt
+def getInts (kv : List (String × String)) (k : String) : Option (List Int) := (lookup kv k).bind parseIntList
+
+def stOfList (l : List Int) : Option St :=
+  if l.length = 38 then some { fs := l.getD 0 0, channels := l.getD 1 0, application := l.getD 2 0, useVbr := l.getD 3 0, userBitrate := l.getD 4 0, forceChannels := l.getD 5 0, signalType := l.getD 6 0, userBandwidth := l.getD 7 0, maxBandwidth := l.getD 8 0, userForcedMode := l.getD 9 0, lfe := l.getD 10 0, useDtx := l.getD 11 0, fecConfig := l.getD 12 0, variableDuration := l.getD 13 0, complexity := l.getD 14 0, lossPerc := l.getD 15 0, useInBandFEC := l.getD 16 0, energyMasking := l.getD 17 0, streamChannels := l.getD 18 0, mode := l.getD 19 0, prevMode := l.getD 20 0, prevChannels := l.getD 21 0, prevFramesize := l.getD 22 0, bandwidth := l.getD 23 0, autoBandwidth := l.getD 24 0, silkBwSwitch := l.getD 25 0, first := l.getD 26 0, voiceRatio := l.getD 27 0, detectedBandwidth := l.getD 28 0, nbNoActivity := l.getD 29 0, nonfinalFrame := l.getD 30 0, bitrateBps := l.getD 31 0, toMono := l.getD 32 0, lbrrCoded := l.getD 33 0, allowBwSwitch := l.getD 34 0, inWBmode := l.getD 35 0, opusCanSwitch := l.getD 36 0, silkUseDtx := l.getD 37 0 }
+  else none
+
+def stToList (s : St) : List Int :=
+  [s.fs, s.channels, s.application, s.useVbr, s.userBitrate, s.forceChannels, s.signalType, s.userBandwidth,
+   s.maxBandwidth, s.userForcedMode, s.lfe, s.useDtx, s.fecConfig, s.variableDuration, s.complexity, s.lossPerc,
+   s.useInBandFEC, s.energyMasking, s.streamChannels, s.mode, s.prevMode, s.prevChannels, s.prevFramesize,
+   s.bandwidth, s.autoBandwidth, s.silkBwSwitch, s.first, s.voiceRatio, s.detectedBandwidth, s.nbNoActivity,
+   s.nonfinalFrame, s.bitrateBps, s.toMono, s.lbrrCoded, s.allowBwSwitch, s.inWBmode, s.opusCanSwitch, s.silkUseDtx]
+
+def frameOfList (l : List Int) : Option FrameOr :=
+  if l.length = 18 then some { aValid := l.getD 0 0, activity := l.getD 1 0, silkBitRateIn := l.getD 2 0, silkRet := l.getD 3 0, nBytes := l.getD 4 0, isr := l.getD 5 0, switchReady := l.getD 6 0, allowBw := l.getD 7 0, inWB := l.getD 8 0, tellA := l.getD 9 0, tellB := l.getD 10 0, tellC := l.getD 11 0, tellD := l.getD 12 0, tellE := l.getD 13 0, stripTo := l.getD 14 0, celtRed1 := l.getD 15 0, celtMain := l.getD 16 0, celtRed2 := l.getD 17 0 }
+  else none
+
+def framesOf (kv : List (String × String)) (n : Nat) : Option (List FrameOr) :=
+  (List.range n).mapM fun i => (getInts kv s!"f{i}").bind frameOfList
+
+def callStr (c : Call) : String := ":".intercalate (toString c.1 :: c.2.map toString)
+def callsStr (cs : List Call) : String := if cs.isEmpty then "-" else "|".intercalate (cs.map callStr)
+
+def natResStr (r : NatRes) : String :=
+  if r.abort then "ABORT"
+  else
+    let pk := if r.ret ≥ 1 then s!"cfg={r.pkt.tocCfg} lens={natList r.pkt.lens} hdr={toHex r.pkt.hdr}"
+              else "cfg=0 lens=- hdr=x"
+    let pk := if r.ret ≥ 1 ∧ r.pkt.lens.isEmpty then s!"cfg={r.pkt.tocCfg} lens=- hdr={toHex r.pkt.hdr}" else pk
+    s!"ret={r.ret} ok={if r.ok then 1 else 0} {pk} st={intList (stToList r.st)} calls={callsStr r.calls}"
+
+def handleNative (toks : List String) : String :=
+  let kv := parseKV toks
+  match getInt kv "fuzz", (getInts kv "st").bind stOfList, getInt kv "frame", getInt kv "out",
+        getInt kv "o.sil", getInt kv "o.aval", getInt kv "o.abw", getInt kv "o.vr0", getInt kv "o.vr1",
+        getInt kv "o.vr2", getInt kv "o.mv", getInt kv "o.mm", getInts kv "o.rands", getInt kv "nf" with
+  | some fuzz, some st, some frame, some out, some sil, some aval, some abw, some vr0, some vr1, some vr2,
+    some mv, some mm, some rands, some nf =>
+    match framesOf kv nf.toNat with
+    | some frames =>
+      let o : NatOr := { isSilence := sil, aValid := aval, aBandwidth := abw, vr0, vr1, vr2, modeVoice := mv,
+                         modeMusic := mm, rands, frames }
+      natResStr (encodeNative st (fuzz ≠ 0) frame out o)
+    | none => "bad-op"
+  | _, _, _, _, _, _, _, _, _, _, _, _, _, _ => "bad-op"
+
+def handle : List String → String
+  | "native" :: toks => handleNative toks
+  | ["silkrate", rate, bw, f20, vbr, fec, ch] =>
+    match parseInt rate, parseInt bw, parseInt f20, parseInt vbr, parseInt fec, parseInt ch with
+    | some rate, some bw, some f20, some vbr, some fec, some ch =>
+      toString (computeSilkRateForHybrid rate bw f20 vbr fec ch)
+    | _, _, _, _, _, _ => "bad-op"
+  | ["gentoc", mode, fr, bw, ch] =>
+    match parseInt mode, parseInt fr, parseInt bw, parseInt ch with
+    | some mode, some fr, some bw, some ch => toString (genToc mode fr bw ch)
+    | _, _, _, _ => "bad-op"
+  | ["fss", a, v, fs] =>
+    match parseInt a, parseInt v, parseInt fs with
+    | some a, some v, some fs => toString (frameSizeSelect a v fs)
+    | _, _, _ => "bad-op"
+  | ["mscurr", nb, fs, frame, maxb, tot, s] =>
+    match parseInt nb, parseInt fs, parseInt frame, parseInt maxb, parseInt tot, parseInt s with
+    | some nb, some fs, some frame, some maxb, some tot, some s => toString (msCurrMax nb fs frame maxb tot s)
+    | _, _, _, _, _, _ => "bad-op"
+  | _ => "bad-op"
+
 end Driver.SuiteEncSkel
